@@ -179,11 +179,6 @@ def evidAfter (op : Op) (out : Out) : Id :=
   | .hash _ h, [.call _ id] => if h.zero ∨ (out.ret = .val failDefault ∧ h.val < 0) then 0 else id
   | _, _ => 0
 
-def hashInDomain (msg : List Byte) : Bool :=
-  match msg with
-  | ty :: arg :: _ => !(ty == msgCommand && arg != 0 && !isGraph arg)
-  | _ => true
-
 def parseOp (w : List String) : Option Op :=
   match w with
   | ["e", "set", id] => (parseId id).map .set
